@@ -5747,6 +5747,9 @@ class CodegenCtx:
         if isinstance(action, CustomFinishAction):
             result.add(f"return {self.program_name.upper()}_FINISH_{action.result_code};")
         elif isinstance(action, FinishAction):
+            # The parser has reached its end: remember that, so that a later feed or end call reports DONE as well (as the final
+            # state of a parser that ran out of statements does) instead of continuing from the state the finish happened in.
+            result.add(f"state->state = {len(self.dfa.states)};")
             result.add(f"return {self.program_name.upper()}_DONE;")
         elif isinstance(action, CustomYieldAction):
             if not ProgramData.do(ProgramFlag.YIELD_SUPPORT):
@@ -5927,6 +5930,11 @@ class CodegenCtx:
             contents.add(f"return {self.program_name.upper()}_OK;")
         result.add("}")
         return result.value()
+
+    def _has_plain_finish(self):
+        def in_actions(actions):
+            return any(type(sub) is FinishAction for action in actions for sub in action.all_subactions())
+        return in_actions(self.start_actions) or any(in_actions(x.actions) for x in self.dfa.all_transitions())
 
     def _generate_equal_check(self, on_value):
         return f"inval == {ord(on_value)} /* {on_value!r} */"
@@ -6208,6 +6216,8 @@ class CodegenCtx:
                     else:
                         state_body.add(f"return {self.program_name.upper()}_FAIL;")
 
+            if self._has_plain_finish():
+                contents.add(f"case {len(self.dfa.states)}: return {self.program_name.upper()}_DONE; // finished by a finish statement")
             contents.add(f"default: return {self.program_name.upper()}_FAIL;")
             contents.add("}")
 
@@ -6262,6 +6272,8 @@ class CodegenCtx:
                     else:
                         state_body.add(f"return {self.program_name.upper()}_FAIL;")
 
+            if self._has_plain_finish():
+                contents.add(f"case {len(self.dfa.states)}: return {self.program_name.upper()}_DONE; // finished by a finish statement")
             contents.add(f"default: return {self.program_name.upper()}_FAIL;")
             contents.add("}")
 
